@@ -98,6 +98,8 @@ type Contract struct {
 	Pure     bool // "pure": no modifies at all
 	EntryLemmas []LemmaCall
 	GhostFinal  []GhostStmt
+	SMT         []string          // raw SMT-LIB commands (recursive specification functions)
+	SMTFuns     map[string]string // function name -> result sort
 	GhostParams []string
 	Lets        []GhostStmt // entry parametrisation: lvalue = expr (substituted into the entry state)
 }
@@ -128,9 +130,61 @@ func splitTop(s, sep string) []string {
 	return out
 }
 
+// rewriteImp turns every "a ==> b" that occurs inside brackets into imp(a, b) (right associative), so that
+// the Go expression parser accepts it; top-level implications are split by parseSpec itself.
+func rewriteImp(s string) string {
+	var out strings.Builder
+	i := 0
+	for i < len(s) {
+		c := s[i]
+		if c == '(' || c == '[' {
+			// find the matching bracket
+			depth := 0
+			j := i
+			for ; j < len(s); j++ {
+				if s[j] == '(' || s[j] == '[' {
+					depth++
+				} else if s[j] == ')' || s[j] == ']' {
+					depth--
+					if depth == 0 {
+						break
+					}
+				}
+			}
+			if j >= len(s) {
+				out.WriteString(s[i:])
+				return out.String()
+			}
+			inner := s[i+1 : j]
+			// split the inner text at its own top-level commas, then each part at ==>
+			parts := splitTop(inner, ",")
+			for k, p := range parts {
+				segs := splitTop(p, "==>")
+				for m := range segs {
+					segs[m] = rewriteImp(segs[m])
+				}
+				r := segs[len(segs)-1]
+				for m := len(segs) - 2; m >= 0; m-- {
+					r = "imp(" + segs[m] + ", " + r + ")"
+				}
+				parts[k] = r
+			}
+			out.WriteByte(c)
+			out.WriteString(strings.Join(parts, ","))
+			out.WriteByte(s[j])
+			i = j + 1
+			continue
+		}
+		out.WriteByte(c)
+		i++
+	}
+	return out.String()
+}
+
 func parseSpec(src string) (*SpecExpr, error) {
 	se := &SpecExpr{Src: src}
 	for _, p := range splitTop(src, "==>") {
+		p = rewriteImp(p)
 		e, err := parser.ParseExpr(strings.TrimSpace(p))
 		if err != nil {
 			return nil, fmt.Errorf("spec %q: %v", src, err)
@@ -185,7 +239,7 @@ func ParseContracts(file string) ([]*Contract, error) {
 			continue
 		}
 		line = strings.TrimSpace(line[3:])
-		if i := strings.Index(line, " //"); i >= 0 {
+		if i := strings.Index(line, " //"); i >= 0 && !strings.HasPrefix(line, "smt") {
 			line = strings.TrimSpace(line[:i])
 		}
 		if line == "" {
@@ -328,6 +382,17 @@ func ParseContracts(file string) ([]*Contract, error) {
 				return nil, fail(err)
 			}
 			cur.EntryLemmas = append(cur.EntryLemmas, l)
+		case "smt":
+			cur.SMT = append(cur.SMT, rest)
+		case "smt-fun":
+			kv := strings.Fields(rest)
+			if len(kv) != 2 {
+				return nil, fail(fmt.Errorf("smt-fun NAME SORT"))
+			}
+			if cur.SMTFuns == nil {
+				cur.SMTFuns = map[string]string{}
+			}
+			cur.SMTFuns[kv[0]] = kv[1]
 		case "ghost-param":
 			for _, v := range strings.Split(rest, ",") {
 				if v = strings.TrimSpace(v); v != "" {
